@@ -73,9 +73,19 @@ Definition logic_poly (g : gate) (is_eq : bool) (ops : list sx) : result (expr *
   | _, _, _ => Err TypeError
   end.
 
+(* the operands are Python expressions (AND(...), NOT(...), models): they are evaluated, in order, before the method is
+   entered, so an error inside an operand comes before any check the method makes *)
+Fixpoint ops_check (ops : list sx) : result unit :=
+  match ops with
+  | [] => Ok tt
+  | SLbl _ :: ops' => ops_check ops'
+  | o :: ops' => bind (ev (sat_expr o)) (fun _ => ops_check ops')
+  end.
+
 Definition add_logic (g : gate) (is_eq : bool) (m : model) (ops : list sx) (lam : Q) : result (model * warn * tag) :=
+  bind (ops_check ops) (fun _ =>
   bind (logic_poly g is_eq ops) (fun '(P, lo, hi) =>
-  bind (ev P) (fun Pm => add_eq m (tm Pm) lam (Some lo, Some hi))).
+  bind (ev P) (fun Pm => add_eq m (tm Pm) lam (Some lo, Some hi)))).
 
 (* the truth the method enforces *)
 Definition gate_truth (g : gate) (bs : list bool) : bool :=
